@@ -132,6 +132,9 @@ def canon(snap, now, keep_others):
 
 class C15(Check):
     pid = "C15"
+    level_text = (
+        "Explicit-state model checking of the implementation itself: all cache histories to fixpoint with a crash at every file operation, and all interleavings of 2-3 loaders at file-operation granularity (visited-state pruning, unbounded preemptions), over an in-memory file system with an owned clock. No separate model, so no conformance gap."
+    )
     technique = (
         "explicit-state search on the real FastaIndex.auto_load over an in-memory file system with owned clock: cache histories to fixpoint "
         "with a crash at every file operation, and all interleavings of 2-3 racing loaders at file-operation granularity (visited-state "
